@@ -102,7 +102,7 @@ impl Ctx {
             tier: tier.to_string(),
             known,
             inner: Mutex::new(Inner::default()),
-            workers: std::thread::available_parallelism().map(|n| n.get()).unwrap_or(4).min(16),
+            workers: std::env::var("CTAPMC_WORKERS").ok().and_then(|s| s.parse().ok()).unwrap_or_else(|| std::thread::available_parallelism().map(|n| n.get()).unwrap_or(4).min(16)),
         }
     }
     pub fn thorough(&self) -> bool {
@@ -495,14 +495,15 @@ impl Local {
 
 pub const STACK: usize = 8 << 20;
 
-/// Enumerate the points 0..total of a product space, statically partitioned into contiguous
-/// chunks over the workers (deterministic). `f(idx, local)` evaluates one point.
+/// Enumerate the points 0..total of a product space, statically partitioned by stride
+/// over the workers (deterministic). `f(idx, local)` evaluates one point.
 /// Failures with signatures not listed as known are recorded in `ctx` (first per worker plus
 /// totals); exploration always runs to completion so coverage numbers stay meaningful.
 pub fn sweep<F>(ctx: &Ctx, name: &str, total: u64, note: &str, f: F)
 where
     F: Fn(u64, &mut Local) + Sync,
 {
+    let t_start = std::time::Instant::now();
     let workers = (ctx.workers as u64).min(total.max(1)) as usize;
     let chunk = total.div_ceil(workers as u64);
     let mut locals: Vec<Local> = Vec::new();
@@ -518,13 +519,14 @@ where
                         worker: w,
                         ..Default::default()
                     };
-                    let lo = (w as u64) * chunk;
-                    let hi = ((w as u64 + 1) * chunk).min(total);
-                    let mut i = lo;
-                    while i < hi {
+                    // strided partition: worker w evaluates w, w+W, w+2W, ... (deterministic,
+                    // and balances spaces whose cost depends on the leading coordinates)
+                    let _ = chunk;
+                    let mut i = w as u64;
+                    while i < total {
                         f(i, &mut local);
                         local.evaluations += 1;
-                        i += 1;
+                        i += workers as u64;
                     }
                     clear_breadcrumb();
                     local
@@ -574,7 +576,7 @@ where
         max_depth: 1,
         expected_states: Some(total),
         exhaustive: true,
-        note: note.to_string(),
+        note: format!("{} [{:.2}s]", note, t_start.elapsed().as_secs_f64()),
     });
 }
 
